@@ -7,6 +7,7 @@ Go would panic.  The theorems are for ALL byte strings.  Termination: every mode
 (accepted by Lean's termination checker), the loop of `FullNode.Decode` runs exactly 16 times.
 -/
 import Verif.Lemmas.MptCodec
+import Verif.Lemmas.DeadNodes
 namespace Verif.Props.C15
 open Verif.Codec
 open Verif.Mpt (Bytes sep)
@@ -44,5 +45,51 @@ theorem decodeLeafOld_panics : decodeLeafOld [97, sep] = .panic := by decide
 
 /-- the fixed decoder returns an error on the same input -/
 theorem decodeLeaf_fixed_witness : decodeLeaf [97, sep] = .err := by decide
+
+/-! ### Dead-node records (`deadNodes.UnmarshalMsg` / `MarshalMsg` over the msgp primitives, `Verif.Model.DeadNodes`) -/
+
+/-- the record decoder never panics, and every `make(map, hint)` it performs — also on inputs it goes on to reject —
+    has a hint bounded by the length of the record (fix 9b8de94), for ALL byte strings -/
+theorem deadNodes_decode_total (bs : Bytes) :
+    (Verif.DeadNodes.decode bs).2 ≠ .panic ∧ ∀ h ∈ (Verif.DeadNodes.decode bs).1, h ≤ bs.length :=
+  ⟨(Verif.DeadNodes.good_decodeWith true bs).2.ne_panic, fun h hh => (Verif.DeadNodes.good_decodeWith true bs).1 h hh rfl⟩
+
+/-- the decoder before 9b8de94 does not panic either … -/
+theorem deadNodesOld_no_panic (bs : Bytes) : (Verif.DeadNodes.decodeOld bs).2 ≠ .panic :=
+  (Verif.DeadNodes.good_decodeWith false bs).2.ne_panic
+
+/-- … but allocates for whatever count the record announces: 2^32−1 entries on a 12-byte input, which the fixed
+    decoder rejects without allocating -/
+theorem deadNodesOld_alloc_witness :
+    (Verif.DeadNodes.decodeOld [0x81, 0xa5, 78, 111, 100, 101, 115, 0xdf, 0xff, 0xff, 0xff, 0xff]).1 = [4294967295] ∧
+    Verif.DeadNodes.decode [0x81, 0xa5, 78, 111, 100, 101, 115, 0xdf, 0xff, 0xff, 0xff, 0xff] = ([], .err) := by
+  decide
+
+/-- MarshalMsg then UnmarshalMsg returns the map (given as its sorted entry list; any keys, any boolean values), with one
+    allocation sized by the number of entries -/
+theorem deadNodes_roundtrip (m : List (Bytes × Bool)) (hn : m.length < 4294967296)
+    (hk : ∀ e ∈ m, e.1.length < 4294967296) :
+    Verif.DeadNodes.decode (Verif.DeadNodes.encode m) = ([m.length], .ok { nodes := some m, allocs := [m.length] }) :=
+  Verif.DeadNodes.decode_encode m hn hk
+
+/-- non-vacuity: 20 entries (map16 header) with a 64-character key (str8) and an empty key (fixstr) -/
+example : ∃ m : List (Bytes × Bool), m.length = 20 ∧ (∀ e ∈ m, e.1.length < 4294967296) ∧
+    (List.replicate 64 97, true) ∈ m ∧ ([], false) ∈ m :=
+  ⟨([], false) :: List.replicate 19 (List.replicate 64 97, true), by simp, by intro e he; simp at he; rcases he with rfl | ⟨_, rfl⟩ <;> simp,
+    by simp, by simp⟩
+
+/-- a record written by RecordDeadNodes for the node keys `ks` (hex strings, all `true`) is accepted by the prune with
+    exactly these keys: nothing it names survives, nothing else is touched -/
+theorem deadNodes_prune_roundtrip (ks : List Bytes) (hn : ks.length < 4294967296)
+    (hk : ∀ k ∈ ks, 2 * k.length < 4294967296) :
+    Verif.DeadNodes.pruneKeys (Verif.DeadNodes.encode (ks.map fun k => (Verif.Mpt.hexBytes k, true))) = some ks := by
+  unfold Verif.DeadNodes.pruneKeys
+  rw [Verif.DeadNodes.decode_encode _ (by simpa using hn) (by
+    intro e he
+    obtain ⟨k, hk', rfl⟩ := List.mem_map.mp he
+    simp only [hexBytes_length]
+    exact hk k hk')]
+  simp only [Option.getD_some]
+  exact Verif.DeadNodes.mapM_unhex_hex ks
 
 end Verif.Props.C15
